@@ -87,6 +87,11 @@ def rules(ctx: Ctx) -> None:
                 node_comps.append((c, d, False))
             else:
                 parent_comps.append((c, d))
+    # the graph that is serialised is the graph that was handed in: re-bound to a re-ordered / cleaned-up copy, "its" nodes and edges are the copy's
+    rebinds = [node for kind, node in prog.local_defs(ser, gparam)]
+    ctx.ob("R18.1", "graph:the-graph-given-is-the-graph-serialised", not rebinds, loc(ser.mod, rebinds[0]) if rebinds else ser.loc(),
+           f"`{u(rebinds[0])[:70]}` re-binds `{gparam}` before it is serialised: nodes and edges are then those of another graph object (a copy that lost self-loops, attributes or nodes exports a different lineage)"
+           if rebinds else f"`{gparam}` is serialised as given")
     ctx.floor("node comprehensions in the serialiser", len(node_comps), 1)
     ctx.floor("edge comprehensions in the serialiser", len(edge_comps), 1)
     id_proj = None
@@ -355,5 +360,9 @@ def rules(ctx: Ctx) -> None:
     # ---- R18.7 (= R03.1 / R03.2): the tables the summary lists are computed from the exported graph's degrees plus three tags - the tags must
     # describe that graph (a tag that outlives the self loop it stood for lists a table under roles the exported edges do not show)
     from .common import import_rules as _imp18
+
+    # ---- R18.8 (= R17.4): the POST /lineage response is built from the request's own runner - kept on the shared application object, a concurrent
+    # request's graph is exported instead
+    _imp18(ctx, "C17", {"R17.4": "R18.8"})
 
     _imp18(ctx, "C03", {"R03.1": "R18.7", "R03.2": "R18.7"})
